@@ -126,7 +126,12 @@ pub fn install_panic_hook() {
                 let f = l.file();
                 // keep path relative to the repository if possible
                 // keep paths relative to the repository root, wherever the repository copy lives
-                let f = if f.contains("/.cargo/") || f.contains("/rustc/") || f.contains("/harness/") {
+                // (files of the harness crate itself are reported relative to the crate root by rustc: mark them)
+                let rel;
+                let f = if !f.starts_with('/') {
+                    rel = format!("harness/{f}");
+                    rel.as_str()
+                } else if f.contains("/.cargo/") || f.contains("/rustc/") || f.contains("/harness/") {
                     f
                 } else if let Some(i) = f.find("/slotted-egraphs-derive/") {
                     &f[i + 1..]
